@@ -36,6 +36,13 @@ pub struct Stats {
     pub new_parallel_instances: BTreeSet<EKey>,
     /// SET = map removed a key that the same statement had written earlier
     pub replaced_own_writes: bool,
+    /// index of the row an update clause is working on
+    pub cur_row: usize,
+    /// entity -> rows (of the SET / REMOVE clauses so far) that wrote to it
+    pub row_writers: BTreeMap<String, BTreeSet<usize>>,
+    /// a SET expression reads an entity that a *different* row of an earlier clause of the
+    /// statement wrote to (clause-by-clause semantics shows it the new values)
+    pub cross_row_reads: bool,
 }
 
 fn ent(target: &RV) -> String {
@@ -203,6 +210,8 @@ fn set_prop(m: &mut Model, st: &mut Stats, target: &RV, key: &str, v: &RV) -> R<
     };
     if !matches!(target, RV::Null) {
         st.note_write(&ent(target), key, pv.clone());
+        let row = st.cur_row;
+        st.row_writers.entry(ent(target)).or_default().insert(row);
     }
     match target {
         RV::Null => Ok(()),
@@ -255,16 +264,52 @@ fn current_keys(m: &Model, target: &RV) -> Vec<String> {
     }
 }
 
-fn apply_set(m: &mut Model, st: &mut Stats, params: &BTreeMap<String, RV>, row: &Row, items: &[SetItem]) -> R<()> {
+/// `start`: the model as it was when the clause began. An item whose value differs between
+/// that state and the current one reads what an earlier item or row of the same clause
+/// wrote; whether it sees that is not decided here (the statement is reported as Nondet).
+fn apply_set(m: &mut Model, st: &mut Stats, params: &BTreeMap<String, RV>, row: &Row, items: &[SetItem], start: Option<&Model>) -> R<()> {
+    let same_at_start = |m: &Model, value: &Expr, v: &RV| -> R<()> {
+        if let Some(s0) = start {
+            let v0 = Ctx::new(s0, params, Reading::default()).eval(value, row);
+            if !matches!(&v0, Ok(x) if x == v) {
+                return Err(EvalErr::Nondet("SET item reads what the same clause wrote".into()));
+            }
+        }
+        let _ = m;
+        Ok(())
+    };
+    let note_reads = |st: &mut Stats, value: &Expr| {
+        let mut vars: Vec<String> = Vec::new();
+        value.walk(&mut |e| {
+            if let Expr::Var(v) = e {
+                vars.push(v.clone());
+            }
+        });
+        for v in vars {
+            if let Some(rv @ (RV::Node(_) | RV::Rel(_))) = row.get(&v) {
+                if st.row_writers.get(&ent(rv)).is_some_and(|ws| ws.iter().any(|w| *w != st.cur_row)) {
+                    st.cross_row_reads = true;
+                }
+            }
+        }
+    };
     for it in items {
         match it {
             SetItem::Prop { target, key, value } => {
+                if start.is_some() {
+                    note_reads(st, value);
+                }
                 let v = Ctx::new(m, params, Reading::default()).eval(value, row)?;
+                same_at_start(m, value, &v)?;
                 let t = row.get(target).cloned().unwrap_or(RV::Null);
                 set_prop(m, st, &t, key, &v)?;
             }
             SetItem::Replace { target, value } | SetItem::Merge { target, value } => {
+                if start.is_some() {
+                    note_reads(st, value);
+                }
                 let v = Ctx::new(m, params, Reading::default()).eval(value, row)?;
+                same_at_start(m, value, &v)?;
                 let t = row.get(target).cloned().unwrap_or(RV::Null);
                 if matches!(t, RV::Null) {
                     continue;
@@ -296,6 +341,8 @@ fn apply_set(m: &mut Model, st: &mut Stats, params: &BTreeMap<String, RV>, row: 
                     for l in labels {
                         node.labels.insert(l.clone());
                     }
+                    let row_i = st.cur_row;
+                    st.row_writers.entry(ent(&RV::Node(*n))).or_default().insert(row_i);
                 }
                 Some(o) => return unsup(format!("SET label on {o:?}")),
             },
@@ -350,7 +397,8 @@ pub fn apply_statement(model: &mut Model, clauses: &[Clause], params: &BTreeMap<
                     return Err(EvalErr::Budget);
                 }
                 let mut next = Vec::new();
-                for r in &rows {
+                for (ri, r) in rows.iter().enumerate() {
+                    st.cur_row = ri;
                     let mut r2 = r.clone();
                     for p in pats {
                         r2 = create_path(&mut m, &mut st, params, &r2, p, false)?;
@@ -367,7 +415,9 @@ pub fn apply_statement(model: &mut Model, clauses: &[Clause], params: &BTreeMap<
                     return Err(EvalErr::Budget);
                 }
                 let mut next = Vec::new();
-                for r in &rows {
+                let rows_before = rows.len();
+                for (ri, r) in rows.iter().enumerate() {
+                    st.cur_row = ri;
                     // null property values and null bound nodes are errors
                     let _ = bound_node(r, &pat.start.var)?;
                     eval_props(&m, params, r, &pat.start.props, true)?;
@@ -383,14 +433,20 @@ pub fn apply_statement(model: &mut Model, clauses: &[Clause], params: &BTreeMap<
                     if found.is_empty() {
                         st.merge_created = true;
                         let r2 = create_path(&mut m, &mut st, params, r, pat, true)?;
-                        apply_set(&mut m, &mut st, params, &r2, on_create)?;
+                        apply_set(&mut m, &mut st, params, &r2, on_create, None)?;
                         next.push(r2);
                     } else {
                         st.merge_matched = true;
                         for f in found {
-                            apply_set(&mut m, &mut st, params, &f, on_match)?;
+                            apply_set(&mut m, &mut st, params, &f, on_match, None)?;
                             next.push(f);
                         }
+                    }
+                }
+                if next.len() != rows_before {
+                    // row indices change: earlier writes count as written by some other row
+                    for ws in st.row_writers.values_mut() {
+                        *ws = BTreeSet::from([usize::MAX]);
                     }
                 }
                 rows = next;
@@ -402,8 +458,10 @@ pub fn apply_statement(model: &mut Model, clauses: &[Clause], params: &BTreeMap<
                 if rows.len() > 300 {
                     return Err(EvalErr::Budget);
                 }
-                for r in &rows {
-                    apply_set(&mut m, &mut st, params, r, items)?;
+                let start = m.clone();
+                for (ri, r) in rows.iter().enumerate() {
+                    st.cur_row = ri;
+                    apply_set(&mut m, &mut st, params, r, items, Some(&start))?;
                 }
             }
             Clause::Remove { items } => {
@@ -413,7 +471,8 @@ pub fn apply_statement(model: &mut Model, clauses: &[Clause], params: &BTreeMap<
                 if rows.len() > 300 {
                     return Err(EvalErr::Budget);
                 }
-                for r in &rows {
+                for (ri, r) in rows.iter().enumerate() {
+                    st.cur_row = ri;
                     for it in items {
                         match it {
                             RemoveItem::Prop { target, key } => {
@@ -427,6 +486,8 @@ pub fn apply_statement(model: &mut Model, clauses: &[Clause], params: &BTreeMap<
                                     for l in labels {
                                         node.labels.remove(l);
                                     }
+                                    let row_i = st.cur_row;
+                                    st.row_writers.entry(ent(&RV::Node(*n))).or_default().insert(row_i);
                                 }
                                 Some(o) => return unsup(format!("REMOVE label on {o:?}")),
                             },
